@@ -118,7 +118,7 @@ def run (ansiMode : Bool) (fields : List String) : String × String :=
          | .ok s => "|" ++ encode s
          | .panic => "|panic")
        else "")
-    if impl == "panic" then (mo, "FAIL C01: rendering panicked") else
+    if impl == "panic" then (mo, "FAIL C01: rendering panicked; C16: rendering panicked, no report was produced") else
     let canonOK := c.displays.all fun (sp, hls) =>
       Spec.isCanon c.m c.text sp.s && Spec.isCanon c.m c.text sp.e &&
       hls.all fun (h, _) => Spec.isCanon c.m c.text h.s && Spec.isCanon c.m c.text h.e
